@@ -17,6 +17,7 @@
 #include "sim.h"
 
 extern "C" int __lsan_do_recoverable_leak_check(void);
+extern long g_live_allocs;
 
 static std::string slurp(const std::string &p) {
   std::ifstream     f(p);
@@ -102,9 +103,14 @@ int main(int argc, char **argv) {
             alarm(60);
             run_history(hist);
             alarm(0);
-            if ((k + 1 - pos) % 400 == 0 && __lsan_do_recoverable_leak_check() != 0) {
+            if (getenv("VERIF_LSAN_EACH") != nullptr && __lsan_do_recoverable_leak_check() != 0) {
               fflush(g_trace);
-              _exit(24);  // parent records the leak for history k
+              _exit(24);  // parent records the leak (with LeakSanitizer's stack) for history k
+            }
+            if (g_live_allocs != 0) {  // the ledger already reported the leak in the "end" event: continue in a fresh process
+              fflush(g_trace);
+              { FILE *pf = fopen(prog.c_str(), "w"); if (pf) { fprintf(pf, "%zu\n", k + 1); fclose(pf); } }
+              _exit(26);
             }
           }
           fflush(g_trace);
@@ -116,6 +122,7 @@ int main(int argc, char **argv) {
         size_t k = mine.size();
         { FILE *pf = fopen(prog.c_str(), "r"); if (pf) { if (fscanf(pf, "%zu", &k) != 1) k = mine.size(); fclose(pf); } }
         if (WIFEXITED(status) && WEXITSTATUS(status) == 0 && k >= mine.size()) break;
+        if (WIFEXITED(status) && WEXITSTATUS(status) == 26) { pos = k; continue; }  // clean restart after a ledger leak
         // child died while running history mine[k]
         if (k >= mine.size()) k = mine.size() - 1;
         std::string err = slurp(terr);
